@@ -3490,7 +3490,9 @@ fn oracle_c14(fields: &[&str]) -> String {
                     }
                 }
                 "grav" => {
-                    let def = format!("gravity {sub} ellps={}", fields[1]);
+                    // ("default": no formula named, which is documented to mean grs80)
+                    let def = if sub == "default" { format!("gravity ellps={}", fields[1]) } else { format!("gravity {sub} ellps={}", fields[1]) };
+                    let sub = if sub == "default" { "grs80" } else { sub };
                     let (_, f) = tryrun!(run_kind("default", &def, true, &pts));
                     for (k, p) in pts.iter().enumerate() {
                         let lat = p[0].to_radians();
